@@ -23,14 +23,12 @@ _IDENT = {
     "Vec::<T, A>::as_slice",
     "Vec::<T, A>::as_mut_slice",
     "slice::<impl [T]>::to_vec",
-    "to_vec",
+    "Uint::to_vec",
     "Clone::clone",
     "ToOwned::to_owned",
     "slice::<impl [T]>::as_ref",
     "GenericArray::<T, N>::as_slice",
     "array::<impl [T; N]>::as_slice",
-    "Into::into",
-    "From::from",
     "String::as_bytes",
     "str::<impl str>::as_bytes",
     "Vec::<T, A>::into_boxed_slice",
@@ -49,11 +47,25 @@ def cname(t):
     return t.a[0][0] if t.op in ("call", "mutcall") else None
 
 
+import re as _re
+
+_BYTE_CONTAINER = _re.compile(r"^&?(mut )?(Vec<u8>|\[u8(; [A-Za-z0-9_]+)?\]|Box<\[u8\]>|GenericArray<u8, .*>|String|str|T|U|Self|B|C|D)$")
+
+
+def _is_byte_conversion(t):
+    """From/Into between byte containers (Vec<u8> <-> [u8;N] <-> Box<[u8]>) keeps the bytes."""
+    g = t.a[0][1]
+    return bool(g) and all(_BYTE_CONTAINER.match(x) for x in g if not x.startswith("'"))
+
+
 def peel(t):
     """Peel reference/wrapper layers that do not change the denoted bytes."""
     while True:
         if t.op in ("ref", "deref"):
             t = t.a[0]
+            continue
+        if t.op == "call" and cname(t) in ("Into::into", "From::from") and len(t.a[1]) == 1 and _is_byte_conversion(t):
+            t = t.a[1][0]
             continue
         if t.op == "call" and cname(t) in _IDENT and len(t.a[1]) == 1:
             # Into/From only when clearly a container conversion (kept as identity for bytes)
@@ -129,7 +141,7 @@ def nf(ev, t, depth=0):
         n = cname(t)
         if n in _EMPTY:
             return []
-        if n == "from_elem" or n == "vec::from_elem":
+        if n == "alloc::from_elem":
             c = _const_int(t.a[1][0])
             if c == 0:
                 return [("z", _len_term(t.a[1][1]))]
